@@ -27,7 +27,7 @@ class SchedRaised(Exception):
 class VTrial:
     __slots__ = (
         "trial_id", "config", "status", "next_level", "run_max", "last_result", "run_no",
-        "reports", "trial", "last_level", "reports_in_run", "source",
+        "reports", "trial", "last_level", "reports_in_run", "source", "run_start_level",
     )
 
     def __init__(self, trial_id, config, trial):
@@ -43,6 +43,7 @@ class VTrial:
         self.reports_in_run = 0
         self.reports = []  # (run_no, level, value, decision)
         self.source = None  # checkpoint_trial_id for warm-started trials
+        self.run_start_level = 1
 
 
 def make_trial(trial_id, config):
@@ -150,6 +151,7 @@ class VTuner:
                 vt.next_level = (src.last_level if src is not None else 0) + 1
                 if self.p.get("pbt_restart_levels", True):
                     vt.next_level = 1
+            vt.run_start_level = vt.next_level
             self.trials[next_id] = vt
             self.running.append(next_id)
             self.port.on_trial_add(trial)
@@ -171,6 +173,7 @@ class VTuner:
             vt.reports_in_run = 0
             vt.run_max = self._run_max(vt.config)
             vt.next_level = vt.last_level + 1 if self.p.get("checkpointing", True) else 1
+            vt.run_start_level = vt.next_level
             self.running.append(tid)
         self._notify("post_suggest", next_id, sugg, vt)
         return sugg
